@@ -364,3 +364,206 @@ Proof.
     rewrite rot_as_rod in H2 by auto. injection H2 as <-.
     rewrite rot_as_rod by auto. rewrite cos_plus, sin_plus, <- C. reflexivity.
 Qed.
+
+(* ------------------------------------------------------------------ cotan *)
+Lemma sumsq3 (x y z : R) : sumsq [x; y; z] = x * x + y * y + z * z.
+Proof. unfold sumsq. simpl. ring. Qed.
+Lemma sumsq3_n3 (x y z : R) : sqrt (sumsq [x; y; z]) = n3 x y z.
+Proof. reflexivity. Qed.
+
+(* cotan(A, B, C) * tan(ABC) = 1, where tan(ABC) = |BA x BC| / (BA . BC):  cotan * |BA x BC| = BA . BC *)
+Lemma cotan_spec (a0 a1 a2 b0 b1 b2 c0 c1 c2 k : R) :
+  let u := vsub RO [a0; a1; a2] [b0; b1; b2] in let v := vsub RO [c0; c1; c2] [b0; b1; b2] in
+  sumsq (g_cross R RO u v) <> 0 ->
+  g_cotan R RO [a0; a1; a2] [b0; b1; b2] [c0; c1; c2] = Ret k ->
+  k * sqrt (sumsq (g_cross R RO u v)) = g_dot R RO u v.
+Proof.
+  cbv zeta. cbn [vsub map2 osub RO Rops].
+  set (u0 := a0 - b0). set (u1 := a1 - b1). set (u2 := a2 - b2).
+  set (v0 := c0 - b0). set (v1 := c1 - b1). set (v2 := c2 - b2).
+  intros HS H. unfold g_cotan in H. cbv zeta in H. cbn [vsub map2 osub RO Rops] in H.
+  fold u0 u1 u2 v0 v1 v2 in H.
+  destruct (vec_normalized R RO [u0; u1; u2] L2) as [BA|e] eqn:E1; [|discriminate]. cbn [bind] in H.
+  apply normalized3_ret in E1 as [P1 ->].
+  destruct (vec_normalized R RO [v0; v1; v2] L2) as [BC|e] eqn:E2; [|discriminate]. cbn [bind] in H.
+  apply normalized3_ret in E2 as [P2 ->].
+  rewrite g_norm_spec in H by discriminate. cbn [bind nrm] in H. injection H as <-.
+  set (n1 := n3 u0 u1 u2) in *. set (n2 := n3 v0 v1 v2) in *.
+  assert (SS : sumsq (g_cross R RO [u0 / n1; u1 / n1; u2 / n1] [v0 / n2; v1 / n2; v2 / n2])
+               = sumsq (g_cross R RO [u0; u1; u2] [v0; v1; v2]) / ((n1 * n2) * (n1 * n2))).
+  { rewrite !cross_expansion, !sumsq3. field. lra. }
+  assert (PP : 0 < n1 * n2) by (apply Rmult_lt_0_compat; assumption).
+  assert (PP2 : 0 < n1 * n2 * (n1 * n2)) by (apply Rmult_lt_0_compat; assumption).
+  rewrite SS. rewrite sqrt_div_alt by exact PP2. rewrite sqrt_square by (apply Rlt_le; exact PP).
+  assert (Q : sqrt (sumsq (g_cross R RO [u0; u1; u2] [v0; v1; v2])) <> 0).
+  { intros Q. apply sqrt_eq_0 in Q; [contradiction|apply sumsq_nonneg]. }
+  set (sq := sqrt (sumsq (g_cross R RO [u0; u1; u2] [v0; v1; v2]))) in *.
+  gen_unfold. field. repeat split; lra.
+Qed.
+
+(* ------------------------------------------------------------------ face basis and circumcenter *)
+Lemma face_basis_spec (a0 a1 a2 b0 b1 b2 c0 c1 c2 : R) X Y Z :
+  g_face_basis R RO [a0; a1; a2] [b0; b1; b2] [c0; c1; c2] = Ret (X, Y, Z) ->
+  exists x0 x1 x2 z0 z1 z2,
+    X = [x0; x1; x2] /\ Z = [z0; z1; z2] /\
+    Y = [z1 * x2 - z2 * x1; z2 * x0 - z0 * x2; z0 * x1 - z1 * x0] /\
+    x0 * x0 + x1 * x1 + x2 * x2 = 1 /\ z0 * z0 + z1 * z1 + z2 * z2 = 1 /\ x0 * z0 + x1 * z1 + x2 * z2 = 0 /\
+    z0 * (b0 - a0) + z1 * (b1 - a1) + z2 * (b2 - a2) = 0 /\
+    z0 * (c0 - a0) + z1 * (c1 - a1) + z2 * (c2 - a2) = 0 /\
+    (exists n, 0 < n /\ b0 - a0 = n * x0 /\ b1 - a1 = n * x1 /\ b2 - a2 = n * x2).
+Proof.
+  unfold g_face_basis. cbv zeta. cbn [vsub map2 osub RO Rops].
+  set (e0 := b0 - a0). set (e1 := b1 - a1). set (e2 := b2 - a2).
+  set (f0 := c0 - a0). set (f1 := c1 - a1). set (f2 := c2 - a2).
+  destruct (vec_normalized R RO [e0; e1; e2] L2) as [X'|e] eqn:E1; [|discriminate]. cbn [bind].
+  apply normalized3_ret in E1 as [P1 ->]. set (n1 := n3 e0 e1 e2) in *.
+  set (x0 := e0 / n1). set (x1 := e1 / n1). set (x2 := e2 / n1).
+  rewrite cross_expansion.
+  destruct (vec_normalized R RO [x1 * f2 - x2 * f1; x2 * f0 - x0 * f2; x0 * f1 - x1 * f0] L2) as [Z'|e] eqn:E2; [|discriminate].
+  cbn [bind]. apply normalized3_ret in E2 as [P2 ->].
+  set (w0 := x1 * f2 - x2 * f1) in *. set (w1 := x2 * f0 - x0 * f2) in *. set (w2 := x0 * f1 - x1 * f0) in *.
+  set (n2 := n3 w0 w1 w2) in *.
+  set (z0 := w0 / n2). set (z1 := w1 / n2). set (z2 := w2 / n2).
+  rewrite cross_expansion.
+  assert (UX : x0 * x0 + x1 * x1 + x2 * x2 = 1) by (apply unit3; unfold n1 in P1; lra).
+  assert (UZ : z0 * z0 + z1 * z1 + z2 * z2 = 1) by (apply unit3; unfold n2 in P2; lra).
+  assert (XZ : x0 * z0 + x1 * z1 + x2 * z2 = 0).
+  { unfold z0, z1, z2, w0, w1, w2. field. lra. }
+  assert (NV : n3 (z1 * x2 - z2 * x1) (z2 * x0 - z0 * x2) (z0 * x1 - z1 * x0) = 1).
+  { unfold n3. replace ((z1 * x2 - z2 * x1) * (z1 * x2 - z2 * x1) +
+      ((z2 * x0 - z0 * x2) * (z2 * x0 - z0 * x2) + ((z0 * x1 - z1 * x0) * (z0 * x1 - z1 * x0) + 0))) with 1 by nsatz.
+    apply sqrt_1. }
+  destruct (vec_normalized R RO [z1 * x2 - z2 * x1; z2 * x0 - z0 * x2; z0 * x1 - z1 * x0] L2) as [Y'|e] eqn:E3; [|discriminate].
+  cbn [bind]. apply normalized3_ret in E3 as [P3 ->]. rewrite NV.
+  intros H. injection H as <- <- <-.
+  exists x0, x1, x2, z0, z1, z2. repeat split; auto.
+  - repeat (apply (f_equal2 (@cons R)); [field|]). reflexivity.
+  - (* Z . e = n1 (Z . X) = 0 *)
+    replace e0 with (n1 * x0) by (unfold x0; field; lra).
+    replace e1 with (n1 * x1) by (unfold x1; field; lra).
+    replace e2 with (n1 * x2) by (unfold x2; field; lra).
+    replace (z0 * (n1 * x0) + z1 * (n1 * x1) + z2 * (n1 * x2)) with (n1 * (x0 * z0 + x1 * z1 + x2 * z2)) by ring.
+    rewrite XZ. ring.
+  - unfold z0, z1, z2, w0, w1, w2. field. lra.
+  - exists n1. repeat split; auto; unfold x0, x1, x2; field; lra.
+Qed.
+
+Lemma line2_some (p10 p11 d10 d11 p20 p21 d20 d21 : R) S :
+  g_intersect_2lines2D R RO [p10; p11] [d10; d11] [p20; p21] [d20; d21] = Some S ->
+  d10 * d21 - d11 * d20 <> 0 /\
+  exists t, t * (d10 * d21 - d11 * d20) = (p20 - p10) * d21 - (p21 - p11) * d20 /\
+            S = [p10 + t * d10; p11 + t * d11].
+Proof.
+  unfold g_intersect_2lines2D. cbv zeta. cbn [vhead2 firstn]. rewrite det2_expansion, oabs_R.
+  destruct (oltb RO (Rabs (d10 * d21 - d11 * d20)) (oQ RO 1 1000000000000)) eqn:E; [discriminate|].
+  intros H. injection H as <-.
+  assert (D : d10 * d21 - d11 * d20 <> 0).
+  { intros Z. rewrite Z, Rabs_R0 in E.
+    assert (oltb RO 0 (oQ RO 1 1000000000000) = true) by (apply oltb_R; unfold oQ; cbn [odiv oZ RO Rops]; lra).
+    congruence. }
+  split; [exact D|].
+  cbv [g_dot vdot vsum vmul vsub vadd vscale map map2 fold_right vnth List.nth neg RO Rops omul osub oadd odiv oZ zero].
+  match goal with |- context [?T * d10] => exists T end. split; [|reflexivity].
+  field. intros Q. apply D. rewrite <- Q. ring.
+Qed.
+
+(* a point p + t * perp(B - A) of the bisector of AB is equidistant from A and B; it is equidistant from A and C
+   when t solves the intersection equation *)
+Lemma circ2d (ax ay bx by_ cx cy t : R) :
+  let p10 := (ax + bx) / 2 in let p11 := (ay + by_) / 2 in
+  let p20 := (ax + cx) / 2 in let p21 := (ay + cy) / 2 in
+  let d10 := by_ - ay in let d11 := - (bx - ax) in
+  let d20 := cy - ay in let d21 := - (cx - ax) in
+  t * (d10 * d21 - d11 * d20) = (p20 - p10) * d21 - (p21 - p11) * d20 ->
+  let s0 := p10 + t * d10 in let s1 := p11 + t * d11 in
+  (s0 - ax) * (s0 - ax) + (s1 - ay) * (s1 - ay) = (s0 - bx) * (s0 - bx) + (s1 - by_) * (s1 - by_) /\
+  (s0 - ax) * (s0 - ax) + (s1 - ay) * (s1 - ay) = (s0 - cx) * (s0 - cx) + (s1 - cy) * (s1 - cy).
+Proof.
+  cbv zeta. intros H. split; [field|].
+  assert (H2 : 2 * (t * ((by_ - ay) * - (cx - ax) - - (bx - ax) * (cy - ay)))
+               = (cx - bx) * - (cx - ax) - (cy - by_) * (cy - ay)) by (rewrite H; field).
+  clear H.
+  replace ((ax + bx) / 2) with ((ax + bx) * / 2) by reflexivity.
+  replace ((ay + by_) / 2) with ((ay + by_) * / 2) by reflexivity.
+  set (hf := / 2). assert (Hh : 2 * hf = 1) by (unfold hf; field). clearbody hf.
+  nsatz.
+Qed.
+
+Lemma dist_decomp (x0 x1 x2 z0 z1 z2 q0 q1 q2 s0 s1 h : R) :
+  x0*x0+x1*x1+x2*x2 = 1 -> z0*z0+z1*z1+z2*z2 = 1 -> x0*z0+x1*z1+x2*z2 = 0 ->
+  let y0 := z1*x2 - z2*x1 in let y1 := z2*x0 - z0*x2 in let y2 := z0*x1 - z1*x0 in
+  let p0 := x0*s0 + y0*s1 + z0*h in let p1 := x1*s0 + y1*s1 + z1*h in let p2 := x2*s0 + y2*s1 + z2*h in
+  (p0-q0)*(p0-q0) + (p1-q1)*(p1-q1) + (p2-q2)*(p2-q2)
+  = (s0 - (x0*q0+x1*q1+x2*q2))*(s0 - (x0*q0+x1*q1+x2*q2)) + (s1 - (y0*q0+y1*q1+y2*q2))*(s1 - (y0*q0+y1*q1+y2*q2))
+    + (h - (z0*q0+z1*q1+z2*q2))*(h - (z0*q0+z1*q1+z2*q2)).
+Proof. intros H1 H2 H3. cbv zeta. nsatz. Qed.
+
+(* The circumcentre is equidistant from the three vertices, and lies in their plane. *)
+Lemma circumcenter_equidistant (a0 a1 a2 b0 b1 b2 c0 c1 c2 : R) P :
+  g_circumcenter R RO [a0; a1; a2] [b0; b1; b2] [c0; c1; c2] = Ret P ->
+  sumsq (vsub RO P [a0; a1; a2]) = sumsq (vsub RO P [b0; b1; b2]) /\
+  sumsq (vsub RO P [a0; a1; a2]) = sumsq (vsub RO P [c0; c1; c2]) /\
+  g_det_3x3 R RO (vsub RO P [a0; a1; a2]) (vsub RO [b0; b1; b2] [a0; a1; a2]) (vsub RO [c0; c1; c2] [a0; a1; a2]) = 0.
+Proof.
+  unfold g_circumcenter. cbv zeta.
+  destruct (g_face_basis R RO [a0; a1; a2] [b0; b1; b2] [c0; c1; c2]) as [[[X Y] Z]|e] eqn:FB; [|discriminate].
+  cbn [bind].
+  destruct (face_basis_spec _ _ _ _ _ _ _ _ _ X Y Z FB)
+    as [x0 [x1 [x2 [z0 [z1 [z2 [-> [-> [-> [UX [UZ [XZ [ZE [ZF [n [Hn [N0 [N1 N2]]]]]]]]]]]]]]]]]].
+  set (y0 := z1 * x2 - z2 * x1). set (y1 := z2 * x0 - z0 * x2). set (y2 := z0 * x1 - z1 * x0).
+  rewrite !(proj1 (dot_expansion _ _ _ _ _ _)).
+  cbn [vadd vsub vdivs map map2 oadd osub odiv oZ RO Rops vnth List.nth neg].
+  match goal with |- bind_opt ?t _ = _ -> _ => destruct t as [S|] eqn:L2 end; [|discriminate].
+  cbn [bind_opt]. apply line2_some in L2 as [D [t [Ht ES]]]. subst S.
+  intros H. injection H as <-.
+  cbv [vscaler vadd vsub map map2 vnth List.nth oadd osub omul RO Rops].
+  set (ax := x0 * a0 + x1 * a1 + x2 * a2) in *. set (ay := y0 * a0 + y1 * a1 + y2 * a2) in *.
+  set (bx := x0 * b0 + x1 * b1 + x2 * b2) in *. set (by_ := y0 * b0 + y1 * b1 + y2 * b2) in *.
+  set (cx := x0 * c0 + x1 * c1 + x2 * c2) in *. set (cy := y0 * c0 + y1 * c1 + y2 * c2) in *.
+  set (h := z0 * a0 + z1 * a1 + z2 * a2) in *.
+  unfold neg in *. cbn [osub oZ RO Rops zero] in *.
+  replace (0 - (bx - ax)) with (- (bx - ax)) in * by ring.
+  replace (0 - (cx - ax)) with (- (cx - ax)) in * by ring.
+  pose proof (circ2d ax ay bx by_ cx cy t Ht) as C2. cbv zeta in C2.
+  set (s0 := (ax + bx) / 2 + t * (by_ - ay)) in *. set (s1 := (ay + by_) / 2 + t * - (bx - ax)) in *.
+  destruct C2 as [C2b C2c].
+  rewrite !sumsq3.
+  pose proof (dist_decomp x0 x1 x2 z0 z1 z2 a0 a1 a2 s0 s1 h UX UZ XZ) as DA.
+  pose proof (dist_decomp x0 x1 x2 z0 z1 z2 b0 b1 b2 s0 s1 h UX UZ XZ) as DB.
+  pose proof (dist_decomp x0 x1 x2 z0 z1 z2 c0 c1 c2 s0 s1 h UX UZ XZ) as DC.
+  cbv zeta in DA, DB, DC. fold y0 y1 y2 in DA, DB, DC. fold ax ay h in DA. fold bx by_ in DB. fold cx cy in DC.
+  assert (HB : z0 * b0 + z1 * b1 + z2 * b2 = h) by (unfold h; lra).
+  assert (HC : z0 * c0 + z1 * c1 + z2 * c2 = h) by (unfold h; lra).
+  rewrite HB in DB. rewrite HC in DC.
+  split; [|split].
+  - lra.
+  - lra.
+  - rewrite (proj1 (det3_expansion _ _ _ _ _ _ _ _ _)).
+    (* P - A, B - A and C - A are all orthogonal to the unit normal Z: they are linearly dependent *)
+    set (u0 := x0 * s0 + y0 * s1 + z0 * h - a0). set (u1 := x1 * s0 + y1 * s1 + z1 * h - a1).
+    set (u2 := x2 * s0 + y2 * s1 + z2 * h - a2).
+    assert (ZU : z0 * u0 + z1 * u1 + z2 * u2 = 0).
+    { unfold u0, u1, u2, y0, y1, y2, h.
+      replace (z0 * (x0 * s0 + (z1 * x2 - z2 * x1) * s1 + z0 * (z0 * a0 + z1 * a1 + z2 * a2) - a0) +
+               z1 * (x1 * s0 + (z2 * x0 - z0 * x2) * s1 + z1 * (z0 * a0 + z1 * a1 + z2 * a2) - a1) +
+               z2 * (x2 * s0 + (z0 * x1 - z1 * x0) * s1 + z2 * (z0 * a0 + z1 * a1 + z2 * a2) - a2))
+        with (s0 * (x0 * z0 + x1 * z1 + x2 * z2) + (z0 * a0 + z1 * a1 + z2 * a2) * ((z0 * z0 + z1 * z1 + z2 * z2) - 1)) by ring.
+      rewrite XZ, UZ. ring. }
+    clearbody u0 u1 u2. clear -ZU ZE ZF UZ.
+    set (e0 := b0 - a0) in *. set (e1 := b1 - a1) in *. set (e2 := b2 - a2) in *.
+    set (f0 := c0 - a0) in *. set (f1 := c1 - a1) in *. set (f2 := c2 - a2) in *.
+    clearbody e0 e1 e2 f0 f1 f2. nsatz.
+Qed.
+
+Lemma det_expansions (a0 a1 a2 b0 b1 b2 c0 c1 c2 : R) :
+  g_det_2x2 R RO [a0; a1] [b0; b1] = a0 * b1 - a1 * b0 /\
+  g_det_3x3 R RO [a0; a1; a2] [b0; b1; b2] [c0; c1; c2]
+  = a0 * (b1 * c2 - b2 * c1) - a1 * (b0 * c2 - b2 * c0) + a2 * (b0 * c1 - b1 * c0) /\
+  g_det_3x3 R RO [a0; a1; a2] [b0; b1; b2] [c0; c1; c2]
+  = g_dot R RO [a0; a1; a2] (g_cross R RO [b0; b1; b2] [c0; c1; c2]).
+Proof. split; [apply det2_expansion|apply det3_expansion]. Qed.
+Lemma rotate_2d_laws (x y a b : R) :
+  sumsq (rot_rotate_2d R RO [x; y] a (cos a) (sin a)) = sumsq [x; y] /\
+  rot_rotate_2d R RO (rot_rotate_2d R RO [x; y] a (cos a) (sin a)) b (cos b) (sin b)
+  = rot_rotate_2d R RO [x; y] (a + b) (cos (a + b)) (sin (a + b)).
+Proof. split; [apply rot2d_isometry_angle|apply rot2d_additive]. Qed.
